@@ -28,7 +28,7 @@ import ast
 import itertools
 
 from .core import AnalysisError
-from .objmodel import ClassModel, new_parser_state, counter_value, open_checkpoints, stack_items
+from .objmodel import ClassModel, model_attr, new_parser_state, counter_value, open_checkpoints, stack_items
 from .opsem import INPUT, RELS, Oracle, make_oracle, program
 from .ordabs import Ev, ModelRaise, Obj
 from .repo import Repo
@@ -61,6 +61,11 @@ def pair_shape(p: object) -> object:
     return str(p)
 
 
+def _sattr(state: Obj, name: str):  # noqa: ANN202
+    cm = state.__dict__.get("_sa_cm")
+    return model_attr(cm, state, name) if cm is not None else state.__dict__.get(name)
+
+
 def observe(state: Obj, pairs: list, result: object) -> dict:
     return {
         "result": bool(result), "pos": state.pos, "stack": stack_items(state, state.user_stack), "pairs": tuple(pair_shape(p) for p in pairs),
@@ -68,7 +73,7 @@ def observe(state: Obj, pairs: list, result: object) -> dict:
         "tags": list(state.tag_stack), "open_checkpoints": open_checkpoints(state),
         "hide": bool(state.__dict__.get("hide_pairs", False)),
         # the furthest-failure record: where, and under which rule names (label texts are not compared)
-        "furthest": (state.__dict__.get("furthest_pos"), tuple(sorted(map(str, state.__dict__.get("furthest_expected") or {}))), tuple(sorted(map(str, state.__dict__.get("furthest_unexpected") or {})))),
+        "furthest": (_sattr(state, "furthest_pos"), tuple(sorted(map(str, _sattr(state, "furthest_expected") or {}))), tuple(sorted(map(str, _sattr(state, "furthest_unexpected") or {})))),
     }
 
 
